@@ -56,6 +56,43 @@ def random_trees(ctx, n):
     return cases
 
 
+def graph_cases(ctx, thorough):
+    """Every link graph of GroupWalk's Init (3 groups, <= 2 links each; thorough: a seeded sample of the 4-group graphs too)
+    as a creation history: groups along the breadth-first spanning tree from the root with CreateGroup, every other link
+    (to a group that exists already: cross links, links back to an ancestor, self links, links to the root) with
+    CreateHardLink.  Graphs that differ only in groups the root does not reach give the same history once."""
+    import json as _json
+    lines, r = ctx.generate("GroupWalkGen.tla", "GroupWalk_gen3.cfg")
+    graphs = [_json.loads(x)["links"] for x in lines]
+    if thorough:
+        l4, _ = ctx.generate("GroupWalkGen.tla", "GroupWalk_gen4.cfg", timeout=1500)
+        rng = random.Random(ctx.seed * 7349 + 33)
+        graphs += [_json.loads(x)["links"] for x in rng.sample(l4, min(len(l4), 6000))]
+    seen, cases = set(), []
+    for links in graphs:
+        path, order, tree, extra = {1: "/"}, [1], [], []
+        qi = 0
+        while qi < len(order):
+            n = order[qi]
+            qi += 1
+            for i, t in enumerate(links[n - 1]):
+                p = (path[n] if path[n] != "/" else "") + "/L%d_%d" % (n, i + 1)
+                if t not in path:
+                    path[t] = p
+                    order.append(t)
+                    tree.append({"op": "mkgroup", "p": p})
+                else:
+                    extra.append((p, t))
+        ops = tree + [{"op": "hlink", "p": p, "t": path[t]} for p, t in extra]
+        key = _json.dumps(ops)
+        if not ops or key in seen:
+            continue
+        seen.add(key)
+        for sb in ((0, 2, 3) if len(ops) <= 4 or thorough else (len(cases) % 3 and 2 or 0,)):
+            cases.append({"cfg": {"sb": sb, "rb": "", "style": 0, "tag": "C03-link-graphs"}, "ops": ops})
+    return cases, r
+
+
 def nontrivial(c):
     kinds = {o["op"] for o in c["ops"]}
     return len(c["ops"]) >= 2 and ("hlink" in kinds or len([o for o in c["ops"] if o["op"] in ("mkgroup", "mkds")]) >= 2)
@@ -78,7 +115,7 @@ def run(ctx):
               ("C03Model.tla", "C03_links.cfg")]    # groups created together with 0, 1, 8, 9, 12 links (symbol table / dense storage)
     return run_logical(
         ctx, LEVEL, models,
-        extra_cases=random_trees(ctx, 300 if thorough else 40),
+        extra_cases=random_trees(ctx, 300 if thorough else 40) + graph_cases(ctx, thorough)[0],
         nontrivial=nontrivial,
         rule="cases = every history of <= Depth create/link calls (mkgroup, mkds, hard/soft/external link; duplicates and "
              "missing parents included) over the path alphabet {a,b} depth<=2 generated by TLC from H5Logical, on superblock "
